@@ -302,3 +302,29 @@ def unwrap_newtypes(raw, ref, crate):
         # type strings carry no crate prefix; item paths (functions, impls) do and are left alone
         text = _re.sub(r"(?<![A-Za-z0-9_:])" + _re.escape(tn) + r"(?![A-Za-z0-9_:])", inner.replace("\\", "\\\\"), text)
     return text, sorted(news)
+
+
+def redirect_into(raw):
+    """`x.into()` goes through std's blanket `impl<T, U: From<T>> Into<U> for T`, whose body is `U::from(x)`: when that `from`
+    is a function of this crate the call is pointed at it directly (so that it can be read, or spliced, like any other
+    local function).  Returns the number of redirected calls."""
+    import re as _re
+    crate = raw["crate"]
+    fns = {f["path"] for f in raw["fns"]}
+    n = 0
+    for f in raw["fns"]:
+        for b in f["blocks"]:
+            t = b["term"]
+            if t["k"] != "call" or t["func"].get("k") != "fn" or t["func"].get("path") != "std::convert::Into::into":
+                continue
+            m = _re.match(r"^<(.*) as std::convert::Into<(.*)>>::into$", t["func"].get("inst", ""))
+            if not m:
+                continue
+            A, B = m.group(1), m.group(2)
+            cands = [p_ for p_ in fns if p_ == "%s::<%s as std::convert::From<%s>>::from" % (crate, B, A)
+                     or p_.endswith("<impl std::convert::From<%s> for %s>::from" % (A, B))]
+            if len(cands) == 1:
+                t["func"] = {"k": "fn", "path": cands[0], "inst": cands[0], "local": True, "crate": crate, "resolved": cands[0],
+                             "resolved_inst": cands[0], "resolved_local": True, "resolved_kind": "Item", "via": "Into::into"}
+                n += 1
+    return n
